@@ -1,22 +1,27 @@
 #!/bin/bash
-# usage: confirm_seed.sh <worktree> <seed-dir> <pkg-dir-in-repo> [extra test pkgs...]
+# usage: confirm_seed.sh <worktree> <seed-dir> [test pkgs for "existing tests"...]
 # Confirms in a scratch worktree: patch applies and builds; the demonstration fails with
-# the change and passes without it; the existing tests of the touched packages still pass.
+# the change and passes without it; the existing tests of the given packages still pass.
 set -u
 export GOFLAGS=-mod=mod GOPROXY=off
-WT=$1; SD=$2; PKG=$3; shift 3
+WT=$1; SD=$2; shift 2
 cd "$WT" || exit 2
 git checkout -q -- . ; git clean -fdq
 DEMO=$(ls "$SD"/*_test.go 2>/dev/null | head -1)
+PKG=$(grep -o 'go test [^ ]*\./[A-Za-z0-9_/.-]*' "$DEMO" | head -1 | grep -o '\./[A-Za-z0-9_/.-]*' | sed 's|^\./||; s|/$||')
+RUN=$(grep -o "\-run[ =]'\?[A-Za-z0-9_|^$]*" "$DEMO" | head -1 | sed "s/-run[ =]'\?//")
+echo "== demo dir $PKG, -run ${RUN:-Demo}"
 echo "== demo without change (must pass)"
 cp "$DEMO" "$PKG/zz_seed_demo_test.go"
-go test -count=1 -run 'Demo|Seed|Verif' "./$PKG" 2>&1 | tail -3
+go test -count=1 -run "${RUN:-Demo}" "./$PKG" 2>&1 | tail -3
 echo "== apply"
 git apply "$SD/patch.diff" || { echo "PATCH DOES NOT APPLY"; exit 1; }
 go build ./... 2>&1 | tail -3
 echo "== demo with change (must fail)"
-go test -count=1 -run 'Demo|Seed|Verif' "./$PKG" 2>&1 | tail -5
+go test -count=1 -run "${RUN:-Demo}" "./$PKG" 2>&1 | grep -v '^    ' | tail -4
 rm -f "$PKG/zz_seed_demo_test.go"
+if [ $# -gt 0 ]; then
 echo "== existing tests with change (must pass)"
-go test -count=1 "./$PKG" "$@" 2>&1 | tail -6
+go test -count=1 "$@" 2>&1 | grep -v "no test files" | tail -6
+fi
 git checkout -q -- . ; git clean -fdq
